@@ -47,7 +47,8 @@ fn bases() -> Vec<Base> {
     // the paths and query multisets of header authentication (C05) and the presigned-specific query shapes
     let paths: Vec<&'static str> = crate::props::c05::PATHS.iter().copied().chain(["/bkt/a%3Fb%23c%25d"]).collect();
     let mut queries: Vec<&'static str> = crate::props::c05::QUERIES.to_vec();
-    for q in ["response-content-type=text%2Fplain", "versionId=v1&a=%20+", "k=%2541", "uploads", "tagging=", "prefix=&max-keys=1&delimiter"] {
+    // (a URL presigned with temporary credentials carries X-Amz-Security-Token as one more signed query parameter)
+    for q in ["response-content-type=text%2Fplain", "versionId=v1&a=%20+", "k=%2541", "uploads", "tagging=", "prefix=&max-keys=1&delimiter", "X-Amz-Security-Token=tok%2Fen%3D%3D", "x-amz-meta-q=1&X-Amz-Acl=private"] {
         if !queries.contains(&q) {
             queries.push(q);
         }
@@ -136,6 +137,8 @@ fn set_q(r: &mut Req, parts: &[String]) {
     r.target = if parts.is_empty() { p } else { format!("{p}?{}", parts.join("&")) };
 }
 
+const AMZ_ADDED: &[&str] = &["X-Amz-Security-Token=x", "X-Amz-Security-Token=", "X-Amz-Content-Sha256=UNSIGNED-PAYLOAD", "X-Amz-User-Agent=x", "x-amz-signature=0", "X-Amz-Acl=public-read"];
+
 #[derive(Clone, Debug)]
 enum Mutn {
     None,
@@ -145,6 +148,8 @@ enum Mutn {
     ParamDupOther(usize),
     ParamNameCase(usize),
     ParamAdd,
+    /// a parameter of the X-Amz- family added after signing (every query parameter but the signature is signed)
+    ParamAddAmz(u8),
     Method,
     PathByte(usize),
     SignedHeaderValue,
@@ -177,6 +182,7 @@ impl Mutn {
             Mutn::ParamDupOther(i) => format!("param-duplicated-other:{}", pname(i)),
             Mutn::ParamNameCase(i) => format!("param-name-case:{}", pname(i)),
             Mutn::ParamAdd => "param-added".into(),
+            Mutn::ParamAddAmz(k) => format!("param-added:{}", AMZ_ADDED[*k as usize].split('=').next().unwrap_or("")),
             Mutn::Method => "method".into(),
             Mutn::PathByte(_) => "path-byte".into(),
             Mutn::SignedHeaderValue => "signed-header-value".into(),
@@ -202,6 +208,9 @@ fn mutations(r: &Req, b: &Base) -> Vec<Mutn> {
         m.extend([Mutn::ParamValue(i), Mutn::ParamRemove(i), Mutn::ParamDupSame(i), Mutn::ParamDupOther(i), Mutn::ParamNameCase(i)]);
     }
     m.push(Mutn::ParamAdd);
+    for k in 0..AMZ_ADDED.len() {
+        m.push(Mutn::ParamAddAmz(k as u8));
+    }
     m.push(Mutn::Method);
     for i in 5..r.path().len() {
         m.push(Mutn::PathByte(i));
@@ -281,6 +290,15 @@ fn apply(mu: &Mutn, r: &mut Req, keys: &mut Vec<(String, String)>) -> bool {
         }
         Mutn::ParamAdd => {
             p.insert(0, "zz=1".to_owned());
+            set_q(r, &p);
+        }
+        Mutn::ParamAddAmz(k) => {
+            let add = AMZ_ADDED[*k as usize];
+            let name = add.split('=').next().unwrap_or("");
+            if p.iter().any(|x| x.split('=').next() == Some(name)) {
+                return false;
+            }
+            p.push(add.to_owned());
             set_q(r, &p);
         }
         Mutn::Method => r.method = if r.method == "GET" { "PUT".into() } else { "GET".into() },
